@@ -190,7 +190,8 @@ pub fn value_to_tokens(value: &ASN1Value) -> Result<String, GeneratorError> {
                 }
                 s + "\""
             }),
-        ASN1Value::Time(_) => todo!(),
+        // JER carries time values as strings
+        ASN1Value::Time(t) => Ok(format!("\"{t}\"")),
         ASN1Value::LinkedArrayLikeValue(seq) => seq
             .iter()
             .try_fold(String::from("["), |mut acc, v| {
